@@ -25,481 +25,259 @@ META = {
 NS = 'ace_time::'
 
 
-def role_of(e):
-    """component name a printed / parsed value stands for."""
-    while e.k == 'cast':
-        e = e.a[2]
-    if e.k == 'call' and not e.a[2]:
-        return e.a[0].split('::')[-1]
-    if e.k == 'field':
-        n = e.a[1]
-        if n.startswith('m') and len(n) > 1 and n[1].isupper():
-            n = n[1].lower() + n[2:]
-        return n
-    if e.k == 'var':
-        return e.a[0]
-    return None
+def roundtrip_rules(R, lib, ob):
+    """printTo and the for*String parsers are interpreted (E-SEQ, typed) on values built by the classes' own factories:
+    the abstraction boundary is the Print interface (print of a character / a number / a flash string, printPad2To, the
+    zone name of a TimeZone) on the output side and the C string on the input side (an array of character codes that
+    records which positions are read).  For a sample of the value domain - every offset of +-99:59 in the thorough tier -
+    the printed text must be the ISO-8601 form computed from the value's fields and parsing that text must give back equal
+    fields; the parser may not read at or beyond the length its wrapper tests; shorter strings give error values; error
+    values print their placeholder.  The code may spell the printing and the cursor handling any way it likes."""
+    from .aeval import AEval, AObj, CxxModule, Raised, Text, Ref, cxx_object
+    mod = CxxModule(lib, ['ace_time::'])
+    thorough = R.cfg.tier == 'thorough'
 
-
-def print_tokens(lib, fn, depth=0, seen=None):
-    """[('lit', ch) | ('pad2', role) | ('num', role) | ('sign',) | ('name',)] of a printTo body (after the error guard)."""
-    out = []
-    body = list(fn.body)
-    guard = None
-    if body and body[0].k == 'if':
-        c = body[0].a[0]
-        while c.k == 'cast' or (c.k == 'un' and c.a[0] == 'bool'):
-            c = c.a[-1]
-        if c.k == 'call' and c.a[0].endswith('::isError'):
-            guard = body[0]
-            body = body[1:]
-
-    def walk(block):
-        for s in block:
-            if s.k == 'expr' and s.a[0].k == 'call':
-                e = s.a[0]
-                name = e.a[0].split('::')[-1]
-                if e.a[0] == 'Print::print' and len(e.a[2]) >= 1:
-                    a = e.a[2][0]
-                    b = a
-                    while b.k == 'cast':
-                        b = b.a[2]
-                    if b.k == 'const' and (a.ty or b.ty or '').replace('const ', '') in ('char', 'int') and 32 <= b.a[0] < 127 and (b.ty == 'char' or a.ty == 'char'):
-                        out.append(('lit', chr(b.a[0])))
-                    elif b.k == 'call' and b.a[0].endswith('LongString') or (b.k == 'call' and 'DateStrings' in b.a[0]):
-                        out.append(('name',))
-                    else:
-                        out.append(('num', role_of(b)))
-                elif name == 'printPad2To' and len(e.a[2]) >= 2:
-                    pad = e.a[2][2] if len(e.a[2]) > 2 else None
-                    pv = pad
-                    while pv is not None and pv.k == 'cast':
-                        pv = pv.a[2]
-                    out.append(('pad2', role_of(e.a[2][1]), chr(pv.a[0]) if pv is not None and pv.k == 'const' else ' '))
-                elif name in ('printTo',) and e.a[1] is not None and depth < 4:
-                    callee = lib.fns(e.a[0])
-                    if callee and callee[0].name.startswith(NS + 'TimeZone'):
-                        out.append(('zone',))
-                    elif callee:
-                        out.extend(print_tokens(lib, callee[0], depth + 1)[0])
-                    else:
-                        out.append(('opaque', e.a[0]))
-            elif s.k == 'if':
-                # sign selection: both arms print one literal
-                lits = []
-                for blk in (s.a[1], s.a[2]):
-                    for x in blk:
-                        if x.k == 'expr' and x.a[0].k == 'call' and x.a[0].a[0] == 'Print::print':
-                            b = x.a[0].a[2][0]
-                            while b.k == 'cast':
-                                b = b.a[2]
-                            if b.k == 'const':
-                                lits.append(chr(b.a[0]))
-                if sorted(lits) == ['+', '-']:
-                    out.append(('sign',))
-                else:
-                    walk(s.a[1])
-                    walk(s.a[2])
-            elif s.k == 'decl':
-                continue
-    walk(body)
-    return out, guard
-
-
-class Parse:
-    def __init__(self):
-        self.reads = []       # offsets dereferenced
-        self.tokens = []      # ('digits', n, var) | ('skip', offset) | ('sign', offset) | ('sub', name, length)
-        self.length = 0       # offset of the cursor at the end
-        self.roles = {}       # var -> role (from the final constructor / factory call)
-
-
-def parse_chainable(lib, fn, depth=0):
-    """abstract interpretation of the cursor of a chainable parser."""
-    P = Parse()
-    pname = fn.params[0][0]
-    cur = None
-    off = 0
-    digits = {}
-    order = []
-
-    peeked = set()     # offsets read through an index / cursor + k without moving the cursor
-
-    def const_of(x):
-        while x.k == 'cast':
-            x = x.a[2]
-        return x.a[0] if x.k == 'const' and isinstance(x.a[0], int) else None
-
-    def cursor_reads(e):
-        nonlocal off
-        n = 0
-        for x in walk_expr(e):
-            if x.k == 'deref':
-                inner = x.a[0]
-                while inner.k == 'cast':
-                    inner = inner.a[2]
-                if inner.k == 'incdec' and inner.a[0] == '++' and inner.a[2].k == 'var' and inner.a[2].a[0] == cur:
-                    P.reads.append(off)
-                    off += 1
-                    n += 1
-                elif inner.k == 'var' and inner.a[0] == cur:
-                    P.reads.append(off)
-                elif inner.k == 'bin' and inner.a[0] == '+' and inner.a[1].k == 'var' and inner.a[1].a[0] == cur and const_of(inner.a[2]) is not None:
-                    P.reads.append(off + const_of(inner.a[2]))
-                    peeked.add(off + const_of(inner.a[2]))
-                    n += 1
-            elif x.k == 'index' and x.a[0].k == 'var' and x.a[0].a[0] == cur:
-                i = const_of(x.a[1])
-                if i is None:
-                    raise AnalysisError('%s: the cursor is subscripted with a non-constant' % e.loc)
-                P.reads.append(off + i)
-                peeked.add(off + i)
-                n += 1
-        return n
-
-    def do_block(block):
-        nonlocal cur, off
-        for s in block:
-            if s.k == 'decl' and s.a[2] is not None and s.a[2].k == 'var' and s.a[2].a[0] == pname and cur is None:
-                cur = s.a[0]
-                continue
-            if s.k in ('decl', 'assign'):
-                rhs = s.a[2] if s.k == 'decl' else s.a[1]
-                tgt = s.a[0] if s.k == 'decl' else (s.a[0].a[0] if s.a[0].k == 'var' else None)
-                if s.k == 'assign' and s.a[0].k == 'var' and s.a[0].a[0] == cur and s.a[2] == '+=':
-                    k_ = const_of(s.a[1])
-                    if k_ is None or k_ < 0:
-                        raise AnalysisError('%s: the cursor moves by a non-constant amount' % s.loc)
-                    for _ in range(k_):
-                        if off not in peeked:      # a character that was read in place is consumed, not skipped
-                            P.tokens.append(('skip', off))
-                        off += 1
-                    continue
-                if s.k == 'assign' and s.a[0].k == 'var' and s.a[0].a[0] == pname:
-                    continue
-                if rhs is None:
-                    continue
-                call = rhs
-                while call.k == 'cast':
-                    call = call.a[2]
-                if call.k == 'call' and call.a[0].endswith('Chainable') and call.a[2] and call.a[2][0].k == 'var' and call.a[2][0].a[0] == cur:
-                    callee = lib.fns(call.a[0])
-                    if not callee or depth > 4:
-                        raise AnalysisError('%s: nested parser %s not found' % (s.loc, call.a[0]))
-                    sub = parse_chainable(lib, callee[0], depth + 1)
-                    for r in sub.reads:
-                        P.reads.append(off + r)
-                    for t in sub.tokens:
-                        if t[0] in ('skip', 'sign'):
-                            P.tokens.append((t[0], off + t[1]))
-                        else:
-                            P.tokens.append(t)
-                    off += sub.length
-                    continue
-                start = off
-                n = cursor_reads(rhs)
-                if n and tgt is not None:
-                    # a sign character or a digit
-                    is_digit = any(x.k == 'bin' and x.a[0] == '-' for x in walk_expr(rhs))
-                    if is_digit:
-                        if tgt not in digits:
-                            digits[tgt] = 0
-                            order.append(tgt)
-                        digits[tgt] += n
-                    else:
-                        P.tokens.append(('sign', start))
-                        P.roles[tgt] = 'sign'
-                        order.append(('sign', start))
-                    if is_digit and digits[tgt] == n:
-                        P.tokens.append(['digits', tgt])
-            elif s.k == 'if':
-                # early error return / sign application: no cursor movement expected inside
-                for blk in (s.a[1], s.a[2]):
-                    for x in walk_stmts(blk):
-                        for e0 in stmt_exprs(x):
-                            if cursor_reads(e0):
-                                raise AnalysisError('%s: cursor is advanced inside a conditional' % x.loc)
-                do_returns(s.a[1])
-                do_returns(s.a[2])
-            elif s.k == 'return':
-                do_returns([s])
-            elif s.k == 'expr':
-                cursor_reads(s.a[0])
-
-    def do_returns(block):
-        for s in block:
-            if s.k == 'return' and s.a[0] is not None:
-                e = s.a[0]
-                if e.k in ('call', 'init'):
-                    args = e.a[2] if e.k == 'call' else e.a[1]
-                    callee = lib.fns(e.a[0]) if e.k == 'call' else None
-                    names = None
-                    if callee:
-                        names = [p for p, _ in callee[0].params]
-                    elif e.k == 'init':
-                        ctors = [c for c in lib.funcs.get(NS + e.a[0].split('::')[-1] + '::' + e.a[0].split('::')[-1], []) if len(c.params) == len(args)]
-                        ctors = ctors or [c for c in lib.funcs.get(e.a[0] + '::' + e.a[0].split('::')[-1], []) if len(c.params) == len(args)]
-                        if ctors:
-                            names = [p for p, _ in ctors[0].params]
-                    for i, a in enumerate(args):
-                        b = a
-                        neg = False
-                        while b.k == 'cast' or (b.k == 'un' and b.a[0] == '-'):
-                            if b.k == 'un':
-                                neg = True
-                            b = b.a[-1]
-                        if b.k == 'var' and names and i < len(names):
-                            P.roles.setdefault(b.a[0], names[i])
-    if not fn.body:
-        raise AnalysisError('%s: empty parser' % fn.loc)
-    do_block(fn.body)
-    if cur is None:
-        raise AnalysisError('%s: no cursor local initialised from %s' % (fn.loc, pname))
-    # finalise digit tokens
-    toks = []
-    for t in P.tokens:
-        if isinstance(t, list):
-            toks.append(('digits', digits[t[1]], t[1]))
+    def p_print(ev, recv, args, exprs):
+        a, e = args[0], exprs[0]
+        b = e
+        is_char = False
+        while b.k == 'cast':
+            is_char = is_char or (b.ty or '').replace('const ', '') == 'char'
+            b = b.a[2]
+        is_char = is_char or (b.ty or '').replace('const ', '') == 'char'
+        if isinstance(a, str):
+            recv.attrs['out'].append(a)
+        elif isinstance(a, Ref):
+            s, k = '', a
+            while k.get() != 0:
+                s += chr(k.get())
+                k = k.moved(1)
+            recv.attrs['out'].append(s)
+        elif is_char:
+            recv.attrs['out'].append(chr(a))
         else:
-            toks.append(t)
-    P.tokens = toks
-    P.length = off
-    return P
+            recv.attrs['out'].append(str(a))
+        return None
+    p_print.with_exprs = True
 
+    def p_pad2(ev, recv, args):
+        pr, v, pad = args[0], args[1], (chr(args[2]) if len(args) > 2 else ' ')
+        pr.attrs['out'].append(('%2d' % v).replace(' ', pad) if 0 <= v < 100 else str(v))
+        return None
 
-PAIRS = [
-    # class, printer, chainable parser, wrapper, expected ISO literal sequence
-    ('LocalTime', 'printTo', 'forTimeStringChainable', 'forTimeString', [':', ':']),
-    ('LocalDateTime', 'printTo', 'forDateStringChainable', 'forDateString', ['-', '-', 'T', ':', ':']),
-    ('TimeOffset', 'printTo', 'forOffsetStringChainable', 'forOffsetString', [':']),
-    ('OffsetDateTime', 'printTo', 'forDateStringChainable', 'forDateString', ['-', '-', 'T', ':', ':', ':']),
-]
+    def p_zone(ev, recv, args):
+        args[0].attrs['out'].append('Some/Zone')
+        return None
+    intr = {'Print::print': p_print, 'ace_common::printPad2To': p_pad2, 'Print::println': p_print,
+            'ace_time::TimeZone::printTo': p_zone,
+            'strlen': lambda ev, recv, args: args[0].box.length() if isinstance(args[0], Ref) and isinstance(args[0].box, Text) else len(args[0]),
+            'ace_time::DateStrings::dayOfWeekLongString': lambda ev, recv, args: 'Xxxday',
+            'ace_time::DateStrings::dayOfWeekShortString': lambda ev, recv, args: 'Xxx'}
 
+    def ev():
+        return AEval(module=mod, intrinsics=intr, typed=True, max_steps=200000)
 
-def shape_of_print(tokens):
-    out = []
-    for t in tokens:
-        if t[0] == 'lit':
-            out.append(('lit', t[1]))
-        elif t[0] == 'pad2':
-            out.append(('field', 2, t[1]))
-        elif t[0] == 'num':
-            out.append(('field', 4 if t[1] == 'year' else None, t[1]))
-        elif t[0] == 'sign':
-            out.append(('sign',))
-        else:
-            out.append(t)
-    return out
+    def fn(q, nparams=None, ptype0=None):
+        fs = [f for f in lib.fns(q) if (nparams is None or len(f.params) == nparams) and (ptype0 is None or (f.params and (f.params[0][1] or '') == ptype0))]
+        if not fs:
+            raise AnalysisError('anchor vanished: %s' % q)
+        return fs[0]
 
+    def call(f, args, recv=None):
+        return ev().call_function(f.name, list(args), recv=recv, chosen=CxxModule._Fn(f))
 
-def shape_of_parse(P):
-    out = []
-    for t in P.tokens:
-        if t[0] == 'digits':
-            out.append(('field', t[1], P.roles.get(t[2], t[2])))
-        elif t[0] == 'skip':
-            out.append(('lit', None))
-        elif t[0] == 'sign':
-            out.append(('sign',))
-    # a trailing cursor increment that is never dereferenced (the offset parser ends one past its last digit)
-    # is not part of the shape
-    while out and out[-1] == ('lit', None):
-        out.pop()
-    return out
+    def printed(obj, cls):
+        pr = AObj({'out': []}, oid='printer', cls='Print')
+        call(fn('%s%s::printTo' % (NS, cls), 1), [pr], recv=obj)
+        return ''.join(pr.attrs['out'])
+
+    def parse(cls, wrapper, text):
+        t = Text(text)
+        f = fn('%s%s::%s' % (NS, cls, wrapper), 1, 'const char *')
+        try:
+            return call(f, [Ref(t, 0)]), t
+        except IndexError:
+            return 'reads outside the string', t
+
+    def getf(obj, cls, name):
+        return call(fn('%s%s::%s' % (NS, cls, name), 0), [], recv=obj)
+    need = {}
+    for cls, wr, const in (('LocalDate', 'forDateString', 'kDateStringLength'), ('LocalTime', 'forTimeString', 'kTimeStringLength'),
+                           ('LocalDateTime', 'forDateString', 'kDateTimeStringLength'), ('TimeOffset', 'forOffsetString', 'kTimeOffsetStringLength'),
+                           ('OffsetDateTime', 'forDateString', 'kDateStringLength')):
+        need[cls] = lib.const('%s%s::%s' % (NS, cls, const))
+    d, t, dt, of, odt = (need[k] for k in ('LocalDate', 'LocalTime', 'LocalDateTime', 'TimeOffset', 'OffsetDateTime'))
+    ob('R2', 'length-constants', 'src/ace_time', dt == d + 1 + t and odt == dt + of and (d, t, of) == (10, 8, 6),
+       'length constants do not compose: date %r, time %r, date-time %r, offset %r, offset-date-time %r' % (d, t, dt, of, odt))
+    # ---- sample values
+    dates = [(y, m, dd) for y in (1873, 1900, 1999, 2000, 2019, 2068, 2100, 2127) for m, dd in ((1, 1), (2, 28), (9, 5), (12, 31))]
+    times = [(0, 0, 0), (23, 59, 59), (12, 34, 56), (9, 5, 7)]
+    if thorough:
+        offs = list(range(-5999, 6000))
+    else:
+        offs = sorted(set(list(range(-5999, 6000, 37)) + list(range(-61, 62)) + [-5999, 5999, -960, 960, -480, 330, 345, 765]))
+
+    def iso_off(m):
+        return '%s%02d:%02d' % ('-' if m < 0 else '+', abs(m) // 60, abs(m) % 60)
+    f_ldt = fn(NS + 'LocalDateTime::forComponents', 6)
+    f_lt = fn(NS + 'LocalTime::forComponents', 3)
+    f_ld = fn(NS + 'LocalDate::forComponents', 3)
+    f_off = fn(NS + 'TimeOffset::forMinutes', 1)
+    f_odt = fn(NS + 'OffsetDateTime::forComponents', 7)
+    results = {}
+
+    def bad(key, text):
+        results.setdefault(key, text)
+    n = {'LocalTime': 0, 'LocalDateTime': 0, 'TimeOffset': 0, 'OffsetDateTime': 0, 'LocalDate': 0, 'ZonedDateTime': 0}
+    try:
+        for (h, mi, s) in times:
+            n['LocalTime'] += 1
+            o = call(f_lt, [h, mi, s])
+            txt = printed(o, 'LocalTime')
+            want = '%02d:%02d:%02d' % (h, mi, s)
+            if txt != want:
+                bad(('R1', 'LocalTime'), 'LocalTime(%d, %d, %d) prints %r, ISO-8601 is %r' % (h, mi, s, txt, want))
+                continue
+            back, tx = parse('LocalTime', 'forTimeString', txt)
+            got = tuple(getf(back, 'LocalTime', x) for x in ('hour', 'minute', 'second')) if isinstance(back, AObj) else back
+            if got != (h, mi, s):
+                bad(('R1', 'LocalTime'), '%r parses back as %r' % (txt, got))
+            if tx.reads and max(tx.reads) >= need['LocalTime']:
+                bad(('R2', 'LocalTime'), 'parsing %r reads position %d, the wrapper guarantees %d characters' % (txt, max(tx.reads), need['LocalTime']))
+        for (y, m, dd) in dates:
+            n['LocalDate'] += 1
+            o = call(f_ld, [y, m, dd])
+            txt = printed(o, 'LocalDate')
+            want = '%04d-%02d-%02d' % (y, m, dd)
+            if not txt.startswith(want):
+                bad(('R1', 'LocalDate'), 'LocalDate(%d, %d, %d) prints %r, expected it to start with %r' % (y, m, dd, txt, want))
+            back, tx = parse('LocalDate', 'forDateString', want)
+            got = tuple(getf(back, 'LocalDate', x) for x in ('year', 'month', 'day')) if isinstance(back, AObj) else back
+            if got != (y, m, dd):
+                bad(('R1', 'LocalDate'), '%r parses back as %r' % (want, got))
+            if tx.reads and max(tx.reads) >= need['LocalDate']:
+                bad(('R2', 'LocalDate'), 'parsing %r reads position %d, the wrapper guarantees %d characters' % (want, max(tx.reads), need['LocalDate']))
+            for (h, mi, s) in times[1:3]:
+                n['LocalDateTime'] += 1
+                o = call(f_ldt, [y, m, dd, h, mi, s])
+                txt = printed(o, 'LocalDateTime')
+                want = '%04d-%02d-%02dT%02d:%02d:%02d' % (y, m, dd, h, mi, s)
+                if txt != want:
+                    bad(('R1', 'LocalDateTime'), 'LocalDateTime(%s) prints %r, ISO-8601 is %r' % ((y, m, dd, h, mi, s), txt, want))
+                    continue
+                back, tx = parse('LocalDateTime', 'forDateString', txt)
+                got = tuple(getf(back, 'LocalDateTime', x) for x in ('year', 'month', 'day', 'hour', 'minute', 'second')) if isinstance(back, AObj) else back
+                if got != (y, m, dd, h, mi, s):
+                    bad(('R1', 'LocalDateTime'), '%r parses back as %r' % (txt, got))
+                if tx.reads and max(tx.reads) >= need['LocalDateTime']:
+                    bad(('R2', 'LocalDateTime'), 'parsing %r reads position %d, the wrapper guarantees %d characters' % (txt, max(tx.reads), need['LocalDateTime']))
+        for m in offs:
+            n['TimeOffset'] += 1
+            o = call(f_off, [m])
+            txt = printed(o, 'TimeOffset')
+            if txt != iso_off(m):
+                bad(('R3', 'TimeOffset::printTo:sign'), 'an offset of %d minutes prints %r, expected %r (the sign is the sign of the whole offset, both parts carry the magnitude)' % (m, txt, iso_off(m)))
+                continue
+            back, tx = parse('TimeOffset', 'forOffsetString', txt)
+            got = getf(back, 'TimeOffset', 'toMinutes') if isinstance(back, AObj) else back
+            if got != m:
+                bad(('R3', 'TimeOffset::forOffsetStringChainable:sign'), '%r parses back as %r minutes, printed from %d' % (txt, got, m))
+            if tx.reads and max(tx.reads) >= need['TimeOffset']:
+                bad(('R2', 'TimeOffset'), 'parsing %r reads position %d, the wrapper guarantees %d characters' % (txt, max(tx.reads), need['TimeOffset']))
+        for (y, mo, dd) in dates[::3]:
+            for m in (-480, -30, 0, 330, 765, -5999, 5999):
+                n['OffsetDateTime'] += 1
+                off = call(f_off, [m])
+                o = call(f_odt, [y, mo, dd, 12, 34, 56, off])
+                txt = printed(o, 'OffsetDateTime')
+                want = '%04d-%02d-%02dT12:34:56%s' % (y, mo, dd, iso_off(m))
+                if txt != want:
+                    bad(('R1', 'OffsetDateTime'), 'OffsetDateTime(%s, offset %d min) prints %r, ISO-8601 is %r' % ((y, mo, dd), m, txt, want))
+                    continue
+                back, tx = parse('OffsetDateTime', 'forDateString', txt)
+                got = (tuple(getf(back, 'OffsetDateTime', x) for x in ('year', 'month', 'day', 'hour', 'minute', 'second')) +
+                       (getf(getf(back, 'OffsetDateTime', 'timeOffset'), 'TimeOffset', 'toMinutes'),)) if isinstance(back, AObj) else back
+                if got != (y, mo, dd, 12, 34, 56, m):
+                    bad(('R1', 'OffsetDateTime'), '%r parses back as %r' % (txt, got))
+                if tx.reads and max(tx.reads) >= need['OffsetDateTime']:
+                    bad(('R2', 'OffsetDateTime'), 'parsing %r reads position %d, the wrapper guarantees %d characters' % (txt, max(tx.reads), need['OffsetDateTime']))
+                # zoned: the same text, then the bracketed zone name, printed last
+                n['ZonedDateTime'] += 1
+                z = cxx_object(lib, NS + 'ZonedDateTime')
+                z.attrs['mOffsetDateTime'] = o
+                ztxt = printed(z, 'ZonedDateTime')
+                if ztxt != want + '[Some/Zone]':
+                    bad(('R1', 'ZonedDateTime::printTo:brackets'), 'a zoned date-time prints %r, expected %r' % (ztxt, want + '[Some/Zone]'))
+    except Raised as r_:
+        raise AnalysisError('C15: interpretation raised %s at %s' % (r_.what, r_.loc))
+    for cls in ('LocalTime', 'LocalDateTime', 'OffsetDateTime'):
+        pf = fn('%s%s::printTo' % (NS, cls), 1)
+        R.instance('R1', '%s::printTo~for%sString' % (cls, 'Time' if cls == 'LocalTime' else 'Date'), pf.loc, '%d values' % n[cls], n=max(1, n[cls] // 8))
+        if ('R1', cls) in results:
+            R.violation('R1', '%s::printTo~for%sString' % (cls, 'Time' if cls == 'LocalTime' else 'Date'), pf.loc, results[('R1', cls)])
+    pf = fn(NS + 'LocalDate::printTo', 1)
+    R.instance('R1', 'LocalDate::printTo~forDateStringChainable', pf.loc, '%d values' % n['LocalDate'])
+    if ('R1', 'LocalDate') in results:
+        R.violation('R1', 'LocalDate::printTo~forDateStringChainable', pf.loc, results[('R1', 'LocalDate')])
+    zf = fn(NS + 'ZonedDateTime::printTo', 1)
+    ob('R1', 'ZonedDateTime::printTo:brackets', zf.loc, ('R1', 'ZonedDateTime::printTo:brackets') not in results, results.get(('R1', 'ZonedDateTime::printTo:brackets'), ''))
+    tf = fn(NS + 'TimeOffset::printTo', 1)
+    R.instance('R3', 'TimeOffset::printTo:sign', tf.loc, '%d offsets' % n['TimeOffset'], n=1)
+    if ('R3', 'TimeOffset::printTo:sign') in results:
+        R.violation('R3', 'TimeOffset::printTo:sign', tf.loc, results[('R3', 'TimeOffset::printTo:sign')])
+    cf = fn(NS + 'TimeOffset::forOffsetStringChainable', 1)
+    R.instance('R3', 'TimeOffset::forOffsetStringChainable:sign', cf.loc, '%d offsets' % n['TimeOffset'], n=1)
+    if ('R3', 'TimeOffset::forOffsetStringChainable:sign') in results:
+        R.violation('R3', 'TimeOffset::forOffsetStringChainable:sign', cf.loc, results[('R3', 'TimeOffset::forOffsetStringChainable:sign')])
+    # ---- R2: positions read, and short strings
+    for cls, wr in (('LocalDate', 'forDateString'), ('LocalTime', 'forTimeString'), ('LocalDateTime', 'forDateString'), ('TimeOffset', 'forOffsetString'),
+                    ('OffsetDateTime', 'forDateString')):
+        wf = fn('%s%s::%s' % (NS, cls, wr), 1, 'const char *')
+        c = '%s::%s' % (cls, wr)
+        R.instance('R2', c, wf.loc)
+        if ('R2', cls) in results:
+            R.violation('R2', c, wf.loc, results[('R2', cls)])
+        # every shorter string is refused without being read past its end
+        msg = None
+        full = {'LocalDate': '2019-03-10', 'LocalTime': '12:34:56', 'LocalDateTime': '2019-03-10T12:34:56', 'TimeOffset': '+05:30',
+                'OffsetDateTime': '2019-03-10T12:34:56+05:30'}[cls]
+        for k in range(0, need[cls]):
+            try:
+                back, tx = parse(cls, wr, full[:k])
+            except Raised as r_:
+                msg = 'a string of %d characters: %s' % (k, r_.what)
+                break
+            if not isinstance(back, AObj):
+                msg = 'a string of %d characters: %s' % (k, back)
+                break
+            if not getf(back, cls, 'isError'):
+                msg = 'a string of %d characters (%r) does not parse to an error value' % (k, full[:k])
+                break
+        R.instance('R2', c + ':short', wf.loc)
+        if msg:
+            R.violation('R2', c + ':short', wf.loc, msg)
+    # ---- R4 placeholders
+    for cls in ('LocalDate', 'LocalTime', 'LocalDateTime', 'OffsetDateTime', 'ZonedDateTime'):
+        pf = fn('%s%s::printTo' % (NS, cls), 1)
+        err = call(fn('%s%s::forError' % (NS, cls), 0), [])
+        txt = printed(err, cls)
+        ob('R4', '%s::printTo:error' % cls, pf.loc, txt == '<Invalid %s>' % cls, 'the error value prints %r, documented placeholder "<Invalid %s>"' % (txt, cls))
 
 
 def run(cfg):
     R = Report('C15', cfg)
     lib = cxx.load_lib(cfg)
     R.analysed['translation_units'] = ['tu/lib.cpp']
-    R.rule('R1', 'printTo token sequence == parser consumption sequence; literals are the ISO separators', floor=5)
-    R.rule('R2', 'every cursor offset dereferenced by a parser is below the length its wrapper tests; lengths compose', floor=6)
-    R.rule('R3', 'TimeOffset: printed sign from the sign of the minutes with both parts negated; parser applies the sign to both', floor=2)
-    R.rule('R4', 'error values print their documented placeholder before anything else', floor=5)
+    R.rule('R1', 'printed text is the ISO-8601 form of the fields and parses back to equal fields (interpreted on sampled values)', floor=5)
+    R.rule('R2', 'no parser reads at or beyond the length its wrapper tests; shorter strings give error values; the length constants compose', floor=6)
+    R.rule('R3', 'TimeOffset: sign and magnitude of every offset of +-99:59 print and parse back', floor=2)
+    R.rule('R4', 'error values print their documented placeholder', floor=5)
 
     def ob(rid, c, loc, ok, msg):
         R.instance(rid, c, loc)
         if not ok:
             R.violation(rid, c, loc, msg)
-    lengths = {}
-    for cls, pr, ch, wr, seps in PAIRS:
-        pf = lib.fn('%s%s::%s' % (NS, cls, pr))
-        cf = lib.fn('%s%s::%s' % (NS, cls, ch))
-        toks, guard = print_tokens(lib, pf)
-        P = parse_chainable(lib, cf)
-        a = shape_of_print(toks)
-        b = shape_of_parse(P)
-        c = '%s::printTo~%s' % (cls, ch)
-        ok = len(a) == len(b)
-        why = 'printer emits %d tokens, parser consumes %d: %s vs %s' % (len(a), len(b), a, b)
-        if ok:
-            for i, (x, y) in enumerate(zip(a, b)):
-                if x[0] != y[0]:
-                    ok, why = False, 'token %d: printer emits %s where the parser expects %s' % (i, x, y)
-                    break
-                if x[0] == 'field' and (x[1] != y[1] or x[2] != y[2]):
-                    ok, why = False, 'token %d: printer emits %s (width %s) where the parser reads %s (%s digits)' % (i, x[2], x[1], y[2], y[1])
-                    break
-        ob('R1', c, pf.loc, ok, why)
-        lits = [t[1] for t in a if t[0] == 'lit']
-        ob('R1', '%s::printTo:separators' % cls, pf.loc, lits == seps, 'printed separators are %r, ISO-8601 expects %r' % (lits, seps))
-        pads = [t for t in toks if t[0] == 'pad2' and t[2] != '0']
-        ob('R1', '%s::printTo:padding' % cls, pf.loc, not pads, 'two-digit fields are padded with %r instead of 0' % [t[2] for t in pads])
-        # R2
-        wf = [f for f in lib.fns('%s%s::%s' % (NS, cls, wr)) if (f.params[0][1] or '') == 'const char *']
-        if not wf:
-            raise AnalysisError('anchor vanished: %s::%s(const char*)' % (cls, wr))
-        w = wf[0]
-        need = None
-        exact = False
-        for s in walk_stmts(w.body):
-            if s.k == 'if':
-                cnd = s.a[0]
-                while cnd.k == 'cast':
-                    cnd = cnd.a[2]
-                if cnd.k == 'bin' and cnd.a[0] in ('<', '!=') and cnd.a[1].k == 'call' and cnd.a[1].a[0] == 'strlen':
-                    r = cnd.a[2]
-                    while r.k == 'cast':
-                        r = r.a[2]
-                    from .rules_C09b import lib_fold
-                    need = lib_fold(lib, cnd.a[2])
-                    exact = cnd.a[0] == '!='
-        mx = max(P.reads) if P.reads else -1
-        lengths[cls] = (need, P.length, mx)
-        ob('R2', '%s::%s' % (cls, wr), w.loc, need is not None and mx < need,
-           'the parser dereferences offset %d but the wrapper only guarantees %r characters' % (mx, need))
-        used = mx + 1
-        ob('R2', '%s::%s:consumed' % (cls, ch), cf.loc, need is not None and (used == need or (not exact and used <= need)),
-           'the parser reads %d characters, the wrapper tests for %r' % (used, need))
-    # LocalDate: date part only (printTo appends the weekday name)
-    pf = lib.fn(NS + 'LocalDate::printTo')
-    cf = lib.fn(NS + 'LocalDate::forDateStringChainable')
-    toks, guard = print_tokens(lib, pf)
-    a = [t for t in shape_of_print(toks)]
-    # cut at the first space literal
-    cut = [i for i, t in enumerate(a) if t == ('lit', ' ')]
-    a = a[:cut[0]] if cut else a
-    P = parse_chainable(lib, cf)
-    b = shape_of_parse(P)
-    ok = [x[0:1] + x[1:] if x[0] != 'lit' else ('lit', None) for x in a] == b
-    ob('R1', 'LocalDate::printTo~forDateStringChainable', pf.loc, ok, 'date part printed as %s, parsed as %s' % (a, b))
-    wf = [f for f in lib.fns(NS + 'LocalDate::forDateString') if (f.params[0][1] or '') == 'const char *'][0]
-    need = None
-    for s in walk_stmts(wf.body):
-        if s.k == 'if':
-            cnd = s.a[0]
-            if cnd.k == 'bin' and cnd.a[1].k == 'call' and cnd.a[1].a[0] == 'strlen':
-                r = cnd.a[2]
-                while r.k == 'cast':
-                    r = r.a[2]
-                need = lib.global_value(r.a[0]) if r.k == 'var' else r.a[0] if r.k == 'const' else None
-    ob('R2', 'LocalDate::forDateString', wf.loc, need is not None and max(P.reads) < need and P.length <= need,
-       'parser dereferences offset %d / consumes %d, wrapper guarantees %r' % (max(P.reads), P.length, need))
-    lengths['LocalDate'] = (need, P.length, max(P.reads))
-    # composition of the length constants
-    d, t, dt, of, odt = (lengths.get(k, (None,))[0] for k in ('LocalDate', 'LocalTime', 'LocalDateTime', 'TimeOffset', 'OffsetDateTime'))
-    ob('R2', 'length-constants', 'src/ace_time', None not in (d, t, dt, of, odt) and dt == d + 1 + t and odt == dt + of,
-       'length constants do not compose: date %r, time %r, date-time %r, offset %r, offset-date-time %r' % (d, t, dt, of, odt))
-    R.analysed['lengths(guaranteed, consumed, max deref)'] = lengths
-    # ZonedDateTime: offset-date-time, then [zone]
-    zf = lib.fn(NS + 'ZonedDateTime::printTo')
-    toks, guard = print_tokens(lib, zf)
-    tail = [t for t in toks if t[0] in ('zone',) or (t[0] == 'lit' and t[1] in '[]')]
-    ob('R1', 'ZonedDateTime::printTo:brackets', zf.loc, tail == [('lit', '['), ('zone',), ('lit', ']')] and toks[-3:] == tail,
-       'the zone name is not printed last between [ and ]: %s' % toks[-4:])
-    # R3 sign pairing
-    # Both bodies are summarised path by path (E-GNF); the rule looks at what each path prints / returns, not at how the
-    # branches are spelled.
-    from .gnf import SymExec, Poly, valuations, cmp_formula, formula_str
-
-    def _Pk(k):
-        return Poly(dict(k))
-
-    def calls_of(eff, suffix):
-        out = []
-        for t, v in eff:
-            if t == 'call':
-                for a in _Pk(v).atoms():
-                    if a[0] == 'fn' and a[1].endswith(suffix):
-                        out.append(a)
-        return out
-    pf = lib.fn(NS + 'TimeOffset::printTo')
-    summ = SymExec(fold_global=lib.global_value).run(pf.name, pf.body, {})
-    MM = Poly.atom(('sym', 'this.mMinutes'))
-    ok, why, seen = True, '', set()
-    decls = [s.a[0] for s in pf.body if s.k == 'decl' and s.a[2] is None]
-    vals = list(valuations(summ.guards() + [cmp_formula('<', MM, Poly.const(0))]))
-    for val in vals:
-        hits = summ.outcome(val)
-        negative = val.eval(cmp_formula('<', MM, Poly.const(0)))
-        if len(hits) != 1:
-            ok, why = False, 'the sign selection does not depend on the sign of the minutes alone'
-            break
-        eff = hits[0][3]
-        lits = [a for a in calls_of(eff, 'Print::print') if len(a[2]) == 2 and _Pk(a[2][1]).is_const()]
-        pads = calls_of(eff, 'printPad2To')
-        first = chr(_Pk(lits[0][2][1]).const_value()) if lits and 0 < _Pk(lits[0][2][1]).const_value() < 128 else None
-        seen.add(negative)
-        if first != ('-' if negative else '+'):
-            ok, why = False, '%s offsets print %r first (expected %r)' % ('negative' if negative else 'non-negative', first, '-' if negative else '+')
-            break
-        if len(pads) != 2 or len(decls) < 2:
-            ok, why = False, 'expected two zero-padded fields fed from toHourMinute()'
-            break
-        want = [(-Poly.atom(('sym', d)) if negative else Poly.atom(('sym', d))) for d in decls[:2]]
-        got = [_Pk(p[2][1]) for p in pads]
-        if got != want:
-            ok, why = False, '%s offsets print the fields %r (expected %r: both parts carry the magnitude)' % ('negative' if negative else 'non-negative', got, want)
-            break
-    ob('R3', 'TimeOffset::printTo:sign', pf.loc, ok and seen == {True, False}, why or 'the sign of the minutes is not distinguished')
-    cf = lib.fn(NS + 'TimeOffset::forOffsetStringChainable')
-    summ = SymExec(fold_global=lib.global_value).run(cf.name, cf.body, {})
-    sign_var = [s.a[0] for s in cf.body if s.k == 'decl' and s.a[2] is not None and s.a[1] and 'char' in s.a[1] and '*' not in s.a[1]]
-    ok, why = bool(sign_var), 'no sign character is read'
-    outcomes = {}
-    if ok:
-        sign_atom = None
-        for s in cf.body:
-            if s.k == 'decl' and s.a[0] == sign_var[0]:
-                from .gnf import Canon
-                sign_atom = Canon(fold_global=lib.global_value)(s.a[2])
-        for ch in ('+', '-', 'x'):
-            fixed = cmp_formula('==', sign_atom, Poly.const(ord(ch)))
-            for val in valuations(summ.guards() + [fixed]):
-                if not val.eval(fixed):
-                    continue
-                hits = summ.outcome(val)
-                if len(hits) != 1 or hits[0][1] != 'return':
-                    ok, why = False, 'the parser has no single outcome for the sign character %r' % ch
-                    break
-                outcomes.setdefault(ch, set()).add(hits[0][2])
-        if ok and not all(len(outcomes.get(ch, ())) == 1 for ch in ('+', '-', 'x')):
-            ok, why = False, 'the outcome depends on more than the sign character: %s' % {k: len(v) for k, v in outcomes.items()}
-    if ok:
-        def factory(k):
-            a = [x for x in _Pk(k).atoms()]
-            return a[0] if len(a) == 1 and a[0][0] == 'fn' else None
-        fp, fm, fx = (factory(next(iter(outcomes[ch]))) for ch in ('+', '-', 'x'))
-        if not (fp and fm and fp[1] == fm[1] and fp[1].endswith('forHourMinute') and len(fp[2]) == 2 and len(fm[2]) == 2):
-            ok, why = False, 'a signed offset is not built by forHourMinute(hour, minute) on both signs'
-        else:
-            hp, mp = _Pk(fp[2][0]), _Pk(fp[2][1])
-            hm, mn = _Pk(fm[2][0]), _Pk(fm[2][1])
-            if hp.is_const() or mp.is_const() or not (hm == -hp and mn == -mp):
-                ok, why = False, "'+' builds forHourMinute(%r, %r), '-' builds forHourMinute(%r, %r): the sign must apply to both parts" % (hp, mp, hm, mn)
-        if ok and not (fx and fx[1].endswith('forError')):
-            ok, why = False, 'a character other than + or - is not rejected'
-    ob('R3', 'TimeOffset::forOffsetStringChainable:sign', cf.loc, ok, why)
-    # R4 placeholders
-    for cls in ('LocalDate', 'LocalTime', 'LocalDateTime', 'OffsetDateTime', 'ZonedDateTime'):
-        pf = lib.fn('%s%s::printTo' % (NS, cls))
-        toks, guard = print_tokens(lib, pf)
-        ok = False
-        if guard is not None:
-            strs = [e.a[0] for s in guard.a[1] for e0 in stmt_exprs(s) for e in walk_expr(e0) if e.k == 'str']
-            ret = any(s.k == 'return' for s in guard.a[1])
-            ok = ret and strs == ['<Invalid %s>' % cls]
-        ob('R4', '%s::printTo:error' % cls, pf.loc, ok, 'printTo does not start with "if (isError()) { print(\\"<Invalid %s>\\"); return; }"' % cls)
+    roundtrip_rules(R, lib, ob)
     # R5 parsers keep the parsed fields: no detour through the 32-bit epoch-seconds count (it only spans 1932..2067,
     # the printed fields span 1873..2127)
     R.rule('R5', 'no for*String parser routes the parsed fields through epoch seconds', floor=6)
@@ -580,11 +358,11 @@ def _chr(e):
 
 SELFTEST = [
     dict(id='date-separator-slash', file='src/ace_time/LocalDateTime.cpp', unique=False, nth=0,
-         find="  printer.print('-');\n  printPad2To(printer, mLocalDate.month(), '0');", replace="  printer.print('/');\n  printPad2To(printer, mLocalDate.month(), '0');", rule='R1', construct='separators'),
+         find="  printer.print('-');\n  printPad2To(printer, mLocalDate.month(), '0');", replace="  printer.print('/');\n  printPad2To(printer, mLocalDate.month(), '0');", rule='R1', construct='LocalDateTime'),
     dict(id='print-day-before-month', file='src/ace_time/LocalDateTime.cpp',
          find="  printPad2To(printer, mLocalDate.month(), '0');\n  printer.print('-');\n  printPad2To(printer, mLocalDate.day(), '0');",
          replace="  printPad2To(printer, mLocalDate.day(), '0');\n  printer.print('-');\n  printPad2To(printer, mLocalDate.month(), '0');", rule='R1', construct='LocalDateTime::printTo~'),
-    dict(id='space-padding', file='src/ace_time/LocalTime.cpp', find="printPad2To(printer, mMinute, '0');", replace="printPad2To(printer, mMinute, ' ');", rule='R1', construct='padding'),
+    dict(id='space-padding', file='src/ace_time/LocalTime.cpp', find="printPad2To(printer, mMinute, '0');", replace="printPad2To(printer, mMinute, ' ');", rule='R1', construct='LocalTime'),
     dict(id='parser-skips-extra-char', file='src/ace_time/LocalDateTime.cpp', find="  // 'T'\n  s++;\n", replace="  // 'T'\n  s += 2;\n", rule='R'),
     dict(id='wrapper-length-too-short', file='src/ace_time/LocalTime.cpp', find='  if (strlen(timeString) < kTimeStringLength) {', replace='  if (strlen(timeString) < kTimeStringLength - 2) {', rule='R2'),
     dict(id='length-constant-changed', file='src/ace_time/OffsetDateTime.h', find='static const uint8_t kDateStringLength = 25;', replace='static const uint8_t kDateStringLength = 24;', rule='R2'),
